@@ -310,6 +310,12 @@ class DiscoveryDomain(ExactCollections, Domain):
             return Opaque("%s.%s" % (node.value.id, node.attr))
         return TOP
 
+    def close_value(self, value, item, state):
+        # `with contextlib.closing(client):` - the exit closes the client
+        if value == Opaque("cfg-client"):
+            return state.set("#log", state.get("#log", ()) + (("closed",),))
+        return state
+
     def _apply(self, node, f, arg, state):
         """f(arg) for the callables that can be mapped over the node descriptions."""
         if isinstance(f, tuple) and f and f[0] == "methodcaller":
